@@ -184,8 +184,12 @@ where
     /// display.set_orientation(Orientation::default().rotate(Rotation::Deg180)).unwrap();
     /// ```
     pub fn set_orientation(&mut self, orientation: options::Orientation) -> Result<(), DI::Error> {
-        self.madctl = self.madctl.with_orientation(orientation); // set orientation
-        self.di.write_command(self.madctl)?;
+        let madctl = self.madctl.with_orientation(orientation); // set orientation
+        self.di.write_command(madctl)?;
+
+        // only track the new orientation once the controller has accepted it
+        self.madctl = madctl;
+        self.options.orientation = orientation;
 
         Ok(())
     }
